@@ -254,7 +254,7 @@ func (g *Graph) Words(limit int) ([][]*Event, bool) {
 func wordString(w []*Event) string {
 	var parts []string
 	for _, e := range w {
-		if e.Op == "index" {
+		if e.Op == "index" || e.Op == "slicebounds" {
 			continue // bookkeeping for the path-sensitive bounds proof
 		}
 		if trivialNilTest(e) {
